@@ -67,6 +67,7 @@ import Y0.Lemmas.CfIdStar
 import Y0.Lemmas.CfNsi
 import Y0.Lemmas.CfTermC
 import Y0.Lemmas.CfFragC
+import Y0.Lemmas.CfStarZero
 import Mathlib.Tactic.NormNum
 import Mathlib.Algebra.Order.Field.Rat
 
@@ -277,15 +278,7 @@ the interventional queries `P(y_x)` (`x`, `y` the unstarred values), conjunction
 (a starred symbol turned into an unstarred subscript, two copies of one variable) can occur inside it. -/
 def InFragment (G : MG Name) (ev : Event) : Prop := ∃ w, Frag G w ev
 
-/-- the fragment is decidable: an executable test -/
-def inFragmentB (G : MG Name) (ev : Event) : Bool :=
-  match ev with
-  | [] => true
-  | p :: _ =>
-    decide (ev.keys.Nodup) &&
-    ev.all (fun q => decide (q.2 = ⟨q.1.name, false⟩) && decide (q.1.star = none) && !q.1.isIv &&
-      decide (q.1.name ∈ G.nodes) && decide (q.1.ivs = p.1.ivs)) &&
-    p.1.ivs.all (fun i => !i.star)
+/- the fragment is decidable: the executable test `inFragmentB` (Y0/Model/IdStar.lean) -/
 
 theorem inFragmentB_sound (ev : Event) (h : inFragmentB G ev = true) : InFragment G ev := by
   cases ev with
@@ -357,6 +350,326 @@ theorem permDistrict_orderDistrict (rev : Bool) : PermDistrict (orderDistrict re
   · exact (List.reverse_perm _).trans (perm_sortBy' _ _)
   · exact perm_sortBy' _ _
 
+/-! ## 3d. single-world events of ANY polarity: fragment 2, Zero, refusals -/
+
+/-- **single-world events**: a well-formed event over variables of `G` all of whose keys carry ONE subscript set (possibly empty);
+values and subscripts of any polarity.  (`starOf ev V`: the polarity of the value the event gives `V`.) -/
+def OneWorld (G : MG Name) (ev : Event) : Prop := Frag2 G (worldB ev) (starOf ev) ev
+
+/-- **Fragment 2** `InFragment2 ordf G ev`: a single-world event (ANY polarity of values and subscripts) that either violates
+effectiveness (line 2 answers Zero) or is such that, if line 6 fires on the event without its tautologies (the counterfactual
+graph has several districts), then
+  * no key with a STARRED value is a parent (in `G`) of a non-self-intervened node of the counterfactual graph, and
+  * no node of the counterfactual graph is self-intervened on a STARRED subscript
+(`Clean2`, Lemmas/CfStarTop.lean).  These are exactly the situations in which line 6 would turn a starred symbol into an unstarred
+subscript (F10/M1, F10/M2).  Decidable: `inFragment2B`.  Fragment 1 is contained in it (`inFragment_subset`). -/
+def InFragment2 (ordf : List World → List World) (G : MG Name) (ev : Event) : Prop :=
+  OneWorld G ev ∧
+    (violatesEffectiveness ev = true ∨ Clean2 ordf G (worldB ev) (starOf ev) (removeTautologies ev))
+
+theorem idStarFuelBound_ge (ev : Event) : ∃ b, idStarFuelBound G ev = b + 2 := ⟨2 * G.nodes.length + ev.length + 2, rfl⟩
+
+/-- **ID\* is sound on EVERY single-world event under the conflating reading `cden`**, in which an unstarred subscript `-X` denotes
+the current value of `X` — the value the event gives `X` (`evVal`: `x'` for a starred-valued key or a variable with a starred
+subscript), or the value bound by an enclosing `Sum`.  So on single-world events the only thing wrong with ID*'s estimands is the
+polarity of the subscripts line 6 writes (F10/M1, F10/M2): read with the polarities restored, they are P(event). -/
+theorem idstar_sound_oneworld_conflating (M : Model) (ν : BaseValues) (dom : Name → Nat) (hM : Compatible M G)
+    (hnorm : M.Normalised) (hdom : ∀ v ps us, M.f v ps us < dom v) (hG : G.WF) (hdl : ∀ e ∈ G.di, e.1 ≠ e.2)
+    (hbl : ∀ e ∈ G.bi, e.1 ≠ e.2) {ordf : List World → List World} (hord : PermOrder ordf) {dordf : List Var → List Var}
+    (hdo : PermDistrict dordf) (ev : Event) (hne : ev ≠ []) (hfr : OneWorld G ev) (hviol : violatesEffectiveness ev = false)
+    (e : Expr) (h : idStar ordf dordf G ev = .ok e) :
+    cden M ν dom e (evVal ν (starOf ev) (worldB ev)) = probEvent M ν ev := by
+  have hwc := frag2_consistent hfr hne
+  have hsk := sKeys_starOf ev
+  obtain ⟨_, hst, hkv⟩ := evVal_facts ν hfr hsk hviol hwc
+  have hA := idStarFuel_sound_sw M ν dom hM (fun pmf hp => (hnorm pmf hp).2) hdom hG hdl hbl hord hdo _ _ _ ev e hfr hsk hviol h
+    (evVal ν (starOf ev) (worldB ev)) (fun k hk hs => by rw [hkv k hk, hs]) hst
+  rw [probEvent_evVal M ν hfr hsk hviol hwc] at hA
+  exact hA
+
+/-- **ID\* is sound on fragment 2, under the reading of the property** (`cden2`, Lemmas/CfStarLit.lean): outcome variables take
+the values the event gives them (`evVal`), an unstarred subscript `-X` is the literal `x` unless an enclosing `Sum` binds `X`, a
+starred subscript `+X` is the literal `x'`.  For every functional SCM compatible with the graph (normalised noise, bounded values),
+all base values with `x ≠ x'`, every iteration order. -/
+theorem idstar_sound_fragment2 (M : Model) (ν : BaseValues) (hν : ν.Distinct) (dom : Name → Nat) (hM : Compatible M G)
+    (hnorm : M.Normalised) (hdom : ∀ v ps us, M.f v ps us < dom v) (hG : G.WF) (hdl : ∀ e ∈ G.di, e.1 ≠ e.2)
+    (hbl : ∀ e ∈ G.bi, e.1 ≠ e.2) {ordf : List World → List World} (hord : PermOrder ordf) {dordf : List Var → List Var}
+    (hdo : PermDistrict dordf) (ev : Event) (hne : ev ≠ []) (hfr : InFragment2 ordf G ev) (e : Expr)
+    (h : idStar ordf dordf G ev = .ok e) :
+    cden2 M ν dom e (evVal ν (starOf ev) (worldB ev)) (fun n => ν n false) = probEvent M ν ev := by
+  obtain ⟨hone, hcl⟩ := hfr
+  cases hviol : violatesEffectiveness ev with
+  | true =>
+    obtain ⟨b, hb⟩ := idStarFuelBound_ge G ev
+    unfold idStar at h
+    rw [hb, idstar_line2 ordf dordf G (b + 1) ev hne hviol] at h
+    simp only [Except.ok.injEq] at h
+    subst h
+    rw [idstar_line2_sound M ν hν ev (frag2_eventWF M hM hone) hviol]
+    simp [cden2]
+  | false =>
+    rcases hcl with hcl | hcl
+    · rw [hcl] at hviol; cases hviol
+    · exact idStarFuel_sound_lit M ν dom hM (fun pmf hp => (hnorm pmf hp).2) hdom hG hdl hbl hord hdo _ _ ev hne hone
+        (sKeys_starOf ev) hviol hcl _ e h
+
+/-- **on a single-world event ID\* never refuses** (any polarity; acyclic graph): it returns an estimand, One or Zero -/
+theorem idstar_answers_oneworld (hG : G.WF) (hA : G.Acyclic) (hdl : ∀ e ∈ G.di, e.1 ≠ e.2) (hbl : ∀ e ∈ G.bi, e.1 ≠ e.2)
+    {ordf : List World → List World} (hord : PermOrder ordf) {dordf : List Var → List Var} (hdo : PermDistrict dordf)
+    (ev : Event) (hfr : OneWorld G ev) : ∃ e, idStar ordf dordf G ev = .ok e := by
+  rcases idstar_outcomes G hord hdo.subset hG hA hdl hbl ev hfr.good with h | h
+  · exact h
+  · exfalso
+    cases hviol : violatesEffectiveness ev with
+    | false => exact idStarFuel_not_unid_sw hG hdl hbl hord hdo _ _ _ ev hfr hviol h
+    | true =>
+      obtain ⟨b, hb⟩ := idStarFuelBound_ge G ev
+      unfold idStar at h
+      have hne : ev ≠ [] := by intro h0; rw [h0] at hviol; cases hviol
+      rw [hb, idstar_line2 ordf dordf G (b + 1) ev hne hviol] at h
+      cases h
+
+/-! ### the fragments are decidable -/
+
+theorem consistentB_sound (S : List Iv) (h : consistentB S = true) : ConsistentSubs S := by
+  unfold consistentB at h
+  simp only [List.all_eq_true, decide_eq_true_eq] at h
+  exact fun i hi j hj hij => h i hi j hj hij
+
+theorem oneWorldB_sound (ev : Event) (h : oneWorldB G ev = true) : OneWorld G ev := by
+  unfold oneWorldB at h
+  simp only [Bool.and_eq_true, decide_eq_true_eq, List.all_eq_true] at h
+  obtain ⟨⟨hnd, hall⟩, hcons⟩ := h
+  have hwc := consistentB_sound _ hcons
+  refine ⟨⟨⟨hnd, ?_⟩, ?_⟩, ?_, ?_⟩
+  · intro q hq
+    rw [(hall q hq).1.1]
+  · intro k hk
+    obtain ⟨v, hv⟩ := (mem_keys_iff _ k).1 hk
+    obtain ⟨⟨_, hat⟩, hin⟩ := hall (k, v) hv
+    simp only at hat hin
+    refine ⟨by rw [hat]; rfl, by rw [hat]; rfl, hin, ?_⟩
+    rw [hat]
+    exact hwc
+  · intro q hq
+    exact (hall q hq).1.1
+  · intro k hk
+    obtain ⟨v, hv⟩ := (mem_keys_iff _ k).1 hk
+    exact (hall (k, v) hv).1.2
+
+theorem cleanB_sound {ordf : List World → List World} (w : World) (s : Name → Bool) (ev : Event)
+    (h : cleanB ordf G w s ev = true) : Clean2 ordf G w s ev := by
+  intro g nev hcg hconn
+  unfold cleanB at h
+  rw [hcg] at h
+  simp only at h
+  rw [hconn] at h
+  simp only [Bool.and_eq_true, List.all_eq_true, Bool.or_eq_true, Bool.not_eq_eq_eq_not, Bool.not_true, decide_eq_true_eq] at h
+  obtain ⟨h1, h2⟩ := h
+  constructor
+  · intro k hk hs n hn
+    obtain ⟨v, hv⟩ := (mem_keys_iff nev k).1 hk
+    rcases h1 (k, v) hv with h' | h'
+    · simp only at h'
+      rw [hs] at h'
+      cases h'
+    · exact h' n hn
+  · intro n hn hnsi i hi hin
+    rcases h2 n hn with h' | h'
+    · rw [hnsi] at h'
+      cases h'
+    · exact h' i hi hin
+
+/-- fragment 2 is decidable: the executable test `inFragment2B` (Y0/Model/IdStar.lean; what the harness asks the driver) -/
+theorem inFragment2B_sound {ordf : List World → List World} (ev : Event) (h : inFragment2B ordf G ev = true) :
+    InFragment2 ordf G ev := by
+  have h1 : oneWorldB G ev = true := by
+    unfold inFragment2B at h
+    unfold oneWorldB
+    simp only [Bool.and_eq_true] at h ⊢
+    exact h.1
+  refine ⟨oneWorldB_sound G ev h1, ?_⟩
+  unfold inFragment2B at h
+  simp only [Bool.and_eq_true, Bool.or_eq_true] at h
+  rcases h.2 with h2 | h2
+  · exact Or.inl h2
+  · exact Or.inr (cleanB_sound G _ _ _ h2)
+
+/-- fragment 1 is contained in fragment 2 -/
+theorem inFragment_subset {ordf : List World → List World} (ev : Event) (hne : ev ≠ []) (h : InFragment G ev) :
+    InFragment2 ordf G ev := by
+  obtain ⟨w, hw⟩ := h
+  have hww : worldB ev = w := by
+    cases ev with
+    | nil => exact absurd rfl hne
+    | cons p ps =>
+      have hk : p.1 ∈ Event.keys (p :: ps) := (mem_keys_iff _ p.1).2 ⟨p.2, by simp⟩
+      show p.1.ivs = w
+      rw [hw.keysIn p.1 hk]
+      rfl
+  have hs : ∀ n, starOf ev n = false := by
+    intro n
+    unfold starOf
+    rw [List.any_eq_false]
+    intro p hp
+    rw [hw.unst p hp]
+    simp
+  refine ⟨⟨hw.good, valBy_starOf hw.good.ok hw.keysIn, by rw [hww]; exact hw.keysIn⟩, Or.inr ?_⟩
+  intro g nev _ _
+  constructor
+  · intro k _ hsk
+    rw [hs k.name] at hsk
+    cases hsk
+  · intro n _ _ i hi _
+    rw [hww] at hi
+    exact hw.wUnst i hi
+
+/-! ### Zero -/
+
+/-- **on a single-world event Zero comes from line 2 and from nowhere else**: ID* returns Zero iff the event violates the axiom
+of effectiveness -/
+theorem idstar_zero_iff_line2_oneworld (hG : G.WF) (hdl : ∀ e ∈ G.di, e.1 ≠ e.2) (hbl : ∀ e ∈ G.bi, e.1 ≠ e.2)
+    {ordf : List World → List World} (hord : PermOrder ordf) {dordf : List Var → List Var} (hdo : PermDistrict dordf)
+    (ev : Event) (hfr : OneWorld G ev) :
+    idStar ordf dordf G ev = .ok .zero ↔ violatesEffectiveness ev = true := by
+  constructor
+  · intro h
+    cases hviol : violatesEffectiveness ev with
+    | true => rfl
+    | false => exact absurd h (idStarFuel_ne_zero_sw hG hdl hbl hord hdo _ _ _ ev hfr hviol)
+  · intro hviol
+    obtain ⟨b, hb⟩ := idStarFuelBound_ge G ev
+    have hne : ev ≠ [] := by intro h0; rw [h0] at hviol; cases hviol
+    unfold idStar
+    rw [hb]
+    exact idstar_line2 ordf dordf G (b + 1) ev hne hviol
+
+/-- **`idstar_zero_sound` on single-world events** (fragments 1 and 2 included): ID* returns Zero only for events of probability
+zero in every functional SCM (whatever graph it is compatible with) -/
+theorem idstar_zero_sound_oneworld (M : Model) (ν : BaseValues) (hν : ν.Distinct) (hM : Compatible M G) (hG : G.WF)
+    (hdl : ∀ e ∈ G.di, e.1 ≠ e.2) (hbl : ∀ e ∈ G.bi, e.1 ≠ e.2) {ordf : List World → List World} (hord : PermOrder ordf)
+    {dordf : List Var → List Var} (hdo : PermDistrict dordf) (ev : Event) (hfr : OneWorld G ev)
+    (h : idStar ordf dordf G ev = .ok .zero) : probEvent M ν ev = 0 :=
+  idstar_line2_sound M ν hν ev (frag2_eventWF M hM hfr) ((idstar_zero_iff_line2_oneworld G hG hdl hbl hord hdo ev hfr).1 h)
+
+/-- inside fragment 1 ID* never returns Zero at all (and by `idstar_answers_fragment` it never refuses): it always returns an
+estimand or One -/
+theorem idstar_never_zero_fragment (hG : G.WF) (hdl : ∀ e ∈ G.di, e.1 ≠ e.2) (hbl : ∀ e ∈ G.bi, e.1 ≠ e.2)
+    {ordf : List World → List World} (hord : PermOrder ordf) {dordf : List Var → List Var} (hdo : PermDistrict dordf)
+    (ev : Event) (hfr : InFragment G ev) : idStar ordf dordf G ev ≠ .ok .zero := by
+  obtain ⟨w, hw⟩ := hfr
+  exact idStarFuel_ne_zero_sw hG hdl hbl hord hdo _ w _ ev hw.to2 (frag_no_violation hw)
+
+/-- **where Zero comes from, for EVERY well-formed event** (any number of worlds): from line 2 (possibly after line 3), from line 5,
+or from line 6 with a district event that violates the axiom of effectiveness — i.e. from line 2 of a recursive call, at depth
+one.  The first two are sound (`idstar_zero_line2_sound_partial`, `idstar_zero_line5_sound`); the third is where the open
+findings of kind 'zero' live (the district event `V_{…v…} = v'` is made of two different copies of `V`). -/
+theorem idstar_zero_origin (hG : G.WF) (hdl : ∀ e ∈ G.di, e.1 ≠ e.2) (hbl : ∀ e ∈ G.bi, e.1 ≠ e.2)
+    {ordf : List World → List World} (hord : PermOrder ordf) {dordf : List Var → List Var} (hdo : PermDistrict dordf)
+    (ev : Event) (hev : GoodEv G ev) (h : idStar ordf dordf G ev = .ok .zero) :
+    violatesEffectiveness ev = true ∨
+    (∃ g, makeCounterfactualGraph ordf G (removeTautologies ev) = .ok (g, none)) ∨
+    (∃ g nev evs x, makeCounterfactualGraph ordf G (removeTautologies ev) = .ok (g, some nev) ∧
+      isConnected (nsiSubgraph g) = .ok false ∧ eventsOfEachDistrict dordf g nev = .ok evs ∧ x ∈ evs ∧
+      violatesEffectiveness x = true) := by
+  cases hviol : violatesEffectiveness ev with
+  | true => exact Or.inl rfl
+  | false =>
+    right
+    have hne : ev ≠ [] := by
+      intro h0
+      subst h0
+      simp [idStar, idStarFuelBound, idStarFuel, idStarBody] at h
+    obtain ⟨b, hb⟩ := idStarFuelBound_ge G ev
+    unfold idStar at h
+    rw [hb] at h
+    rcases idStarFuel_top_shape2 ordf dordf G ev hviol hev.ok hne b with ⟨_, h1⟩ | ⟨f, hne', hrun⟩
+    · rw [h1] at h; cases h
+    · rw [hrun] at h
+      have hk' : KeysNSI (removeTautologies ev) := keysNSI_of_lines123 _ hne' (violates_removeTautologies ev hviol)
+        (by rw [removeTautologies_idem]; exact eqv_self _ (evOK_removeTautologies ev hev.ok).nodup)
+        (evOK_removeTautologies ev hev.ok)
+      exact lines4to9_zero_origin hG hdl hbl hord hdo _ (goodEv_removeTautologies hev) hk' f h
+
+/-- **Zero is sound unless it comes from line 2 of a recursive call**: for every well-formed event, if ID* returns Zero then the
+event has probability 0 in every compatible functional SCM, OR line 6 fired at the top and one of the district events violates
+the axiom of effectiveness (the open findings of kind 'zero') -/
+theorem idstar_zero_sound_partial (M : Model) (ν : BaseValues) (hν : ν.Distinct) (hM : Compatible M G) (hG : G.WF)
+    (hdl : ∀ e ∈ G.di, e.1 ≠ e.2) (hbl : ∀ e ∈ G.bi, e.1 ≠ e.2) {ordf : List World → List World} (hord : PermOrder ordf)
+    {dordf : List Var → List Var} (hdo : PermDistrict dordf) (ev : Event) (hev : GoodEv G ev)
+    (h : idStar ordf dordf G ev = .ok .zero) :
+    probEvent M ν ev = 0 ∨
+    (∃ g nev evs x, makeCounterfactualGraph ordf G (removeTautologies ev) = .ok (g, some nev) ∧
+      isConnected (nsiSubgraph g) = .ok false ∧ eventsOfEachDistrict dordf g nev = .ok evs ∧ x ∈ evs ∧
+      violatesEffectiveness x = true) := by
+  have hwf : EventWF M ev := ⟨hev.ok.names,
+    fun p hp => (hM.perm.mem_iff).2 (hev.keys p.1 ((mem_keys_iff ev p.1).2 ⟨p.2, hp⟩)).inG,
+    fun p hp => (hev.keys p.1 ((mem_keys_iff ev p.1).2 ⟨p.2, hp⟩)).subs⟩
+  rcases idstar_zero_origin G hG hdl hbl hord hdo ev hev h with h2 | ⟨g, h5⟩ | h6
+  · exact Or.inl (idstar_line2_sound M ν hν ev hwf h2)
+  · left
+    rw [← idstar_line3_sound M ν ev hwf]
+    have hev' := goodEv_removeTautologies hev
+    have hgood := hord.good (removeTautologies ev).keys
+    refine idstar_zero_line5_sound _ G M ν hν hM hG hdl hbl _ hev'.ok hgood.1 hgood.2 ?_ g h5
+    intro w hw
+    obtain ⟨k, hkk, _, rfl⟩ := (mem_extractInterventions _ w).1 ((hord _).mem_iff.1 hw)
+    exact (hev'.keys k hkk).subs
+  · exact Or.inr h6
+
+/-! ### refusals -/
+
+/-- **`idstar_refusal_iff_conflict`**: for every well-formed event on an acyclic graph, ID* refuses ('unidentifiable') exactly when,
+after lines 1–3, the counterfactual graph of the event (without its tautologies) is connected and line 8's conflict test fires: a
+subscript of a node of the graph and a value or subscript of the relabelled event give one variable different polarities.  The
+recursive calls of line 6 never refuse (they are calls on single-world events). -/
+theorem idstar_refusal_iff_conflict (hG : G.WF) (hA : G.Acyclic) (hdl : ∀ e ∈ G.di, e.1 ≠ e.2) (hbl : ∀ e ∈ G.bi, e.1 ≠ e.2)
+    {ordf : List World → List World} (hord : PermOrder ordf) {dordf : List Var → List Var} (hdo : PermDistrict dordf)
+    (ev : Event) (hev : GoodEv G ev) :
+    idStar ordf dordf G ev = .error .unidentifiable ↔
+      violatesEffectiveness ev = false ∧ removeTautologies ev ≠ [] ∧
+        ∃ g nev, makeCounterfactualGraph ordf G (removeTautologies ev) = .ok (g, some nev) ∧
+          isConnected (nsiSubgraph g) = .ok true ∧ conflicts (nsiSubgraph g) nev ≠ [] := by
+  obtain ⟨b, hb⟩ := idStarFuelBound_ge G ev
+  cases hviol : violatesEffectiveness ev with
+  | true =>
+    have hne : ev ≠ [] := by intro h0; rw [h0] at hviol; cases hviol
+    unfold idStar
+    rw [hb, idstar_line2 ordf dordf G (b + 1) ev hne hviol]
+    constructor
+    · intro h; cases h
+    · rintro ⟨h, _⟩; cases h
+  | false =>
+    by_cases hne : ev = []
+    · subst hne
+      constructor
+      · intro h; simp [idStar, idStarFuelBound, idStarFuel, idStarBody] at h
+      · rintro ⟨_, h, _⟩; exact absurd rfl h
+    · unfold idStar
+      rw [hb]
+      rcases idStarFuel_top_shape2 ordf dordf G ev hviol hev.ok hne b with ⟨h0, h1⟩ | ⟨f, hne', hrun⟩
+      · rw [h1]
+        constructor
+        · intro h; cases h
+        · rintro ⟨_, h, _⟩; exact absurd h0 h
+      · rw [hrun]
+        have hk' : KeysNSI (removeTautologies ev) := keysNSI_of_lines123 _ hne' (violates_removeTautologies ev hviol)
+          (by rw [removeTautologies_idem]; exact eqv_self _ (evOK_removeTautologies ev hev.ok).nodup)
+          (evOK_removeTautologies ev hev.ok)
+        rw [lines4to9_unid_iff hG hA hdl hbl hord hdo _ (goodEv_removeTautologies hev) hk' f]
+        constructor
+        · intro h; exact ⟨rfl, hne', h⟩
+        · rintro ⟨_, _, h⟩; exact h
+
+/-- **`idstar_refuses_sound`**: whenever ID* refuses, the refusal was raised by line 8's conflict test of the top-level call (after
+lines 1–3) — never by a recursive call, never by anything else -/
+theorem idstar_refuses_sound (hG : G.WF) (hA : G.Acyclic) (hdl : ∀ e ∈ G.di, e.1 ≠ e.2) (hbl : ∀ e ∈ G.bi, e.1 ≠ e.2)
+    {ordf : List World → List World} (hord : PermOrder ordf) {dordf : List Var → List Var} (hdo : PermDistrict dordf)
+    (ev : Event) (hev : GoodEv G ev) (h : idStar ordf dordf G ev = .error .unidentifiable) :
+    ∃ g nev, makeCounterfactualGraph ordf G (removeTautologies ev) = .ok (g, some nev) ∧
+      isConnected (nsiSubgraph g) = .ok true ∧ conflicts (nsiSubgraph g) nev ≠ [] :=
+  ((idstar_refusal_iff_conflict G hG hA hdl hbl hord hdo ev hev).1 h).2.2
+
 /-! ## 4. non-vacuity: concrete runs of the model (kernel-evaluated) -/
 
 namespace Example07
@@ -394,6 +707,17 @@ example : inFragmentB gBA [(A_b, ⟨0, false⟩)] = true := by decide
 example : inFragmentB gBA [(A, ⟨0, false⟩), (B, ⟨1, false⟩)] = true := by decide
 /-- … and the F10 witness is outside it (a starred value) -/
 example : inFragmentB gBA [(B, ⟨1, true⟩), (A, ⟨0, false⟩)] = false := by decide
+
+/-- fragment 2 is strictly larger: `P(A_{b'} = a')` (starred subscript and value, line 9 answers) and `A = a' ∧ B = b` on `B → A`
+(line 6 fires; the starred-valued key `A` has no child) are inside it, not inside fragment 1 -/
+example : inFragment2B sortWorlds gBA [({ name := 0, ivs := [⟨1, true⟩] }, ⟨0, true⟩)] = true := by decide
+example : inFragmentB gBA [({ name := 0, ivs := [⟨1, true⟩] }, ⟨0, true⟩)] = false := by decide
+example : inFragment2B sortWorlds gBA [(A, ⟨0, true⟩), (B, ⟨1, false⟩)] = true := by decide
+/-- … and the F10/M1 witness `B = b' ∧ A = a` is outside it (the starred-valued key `B` is a parent of `A`, two districts),
+so is the F10/M2 witness `B = b ∧ A_{b'} = a` … -/
+example : inFragment2B sortWorlds gBA [(B, ⟨1, true⟩), (A, ⟨0, false⟩)] = false := by decide
+/-- … `B_b = b'` is inside (line 2 answers Zero, soundly) -/
+example : inFragment2B sortWorlds gBA [({ name := 1, ivs := [⟨1, false⟩] }, ⟨1, true⟩)] = true := by decide
 
 /-- the semantic hypotheses of `idstar_sound_fragment` are satisfiable: a functional SCM compatible with `B → A` with normalised
 noise and mechanisms bounded by `dom = 2` -/
